@@ -41,3 +41,19 @@ def expect(res, name, sub, expected_fail, expected_ok_min=1):
         res.broke("self-test %s: only %d conforming instances recognised (< %d)" % (name, okc, expected_ok_min))
     res.info.setdefault("selftests", []).append(
         {"name": name, "planted_violations": len(expected_fail), "fired": len(failing), "conforming_ok": okc})
+
+
+def run_c13(res, r4_append):
+    """stale-copy rule: must fire on AppendStale (3 uses after the renumbering) and stay silent on AppendFresh"""
+    prog = load("C13", ["src/clstepcore/instmgr.cc"])
+    for name, want in (("InstMgr::AppendStale", True), ("InstMgr::AppendFresh", False)):
+        sub = report.Result("C13")
+        n = r4_append(prog, sub, fn_name=name, selftest=True)
+        if n is None:
+            res.broke("self-test C13: %s not analysed (%s)" % (name, "; ".join(sub.broken)))
+            continue
+        if want and n < 3:
+            res.broke("self-test C13: stale-copy rule found %d uses in %s (planted: 3)" % (n, name))
+        if not want and n != 0:
+            res.broke("self-test C13: stale-copy rule fired on conforming %s: %s" % (name, [o.msg for o in sub.obs if not o.ok][:2]))
+        res.info.setdefault("selftests", []).append({"name": "C13 " + name, "planted": want, "stale_uses_reported": n})
